@@ -91,6 +91,12 @@ def build(M, n, empty_ok=False, at_end_ok=True):
 
 def entry_at(S, p, j, cons):
     """the (CardPair, f32) aggregate stored at index j (64-bit term) of player p, with its validity axioms instantiated"""
+    if getattr(S, 'mode', 'sym') == 'ctor':
+        items = S.entries[p]
+        if not items:
+            # empty list: any read is out of bounds; give the reference an arbitrary (unused) element
+            return Agg('', [Agg('CardPair', [mk_card(0, 0), mk_card(0, 1)]), Flt(z3.FPVal(1.0, F32))])
+        return mirx.index_get(PyObj('vec', items=items), Int(z3.simplify(j), 64))
     u = S.ufs[p]
     ar, as_, br, bs, w = u['ar'](j), u['as_'](j), u['br'](j), u['bs'](j), u['w'](j)
     cons += [z3.ULT(ar, 13), z3.ULT(as_, 4), z3.ULT(br, 13), z3.ULT(bs, 4),
@@ -165,6 +171,78 @@ def make_iterator(M, src, S):
             raise Unsupported(f'iterator field {fld}: {ty} is not known to the step harness')
     S.it = Agg('FlopExhaustiveEvaluatorIterator', vals)
     return S.it
+
+
+def build_from_ctor(M, src, flop, ranges):
+    """state obtained by running the REAL constructor (FlopExhaustiveEvaluatorIterator::new) on a concrete flop and
+    concrete small ranges (symbolic weights), then making position, scope end and odometer symbolic.  Fields this harness
+    does not know keep the values the constructor gave them.  flop: 3 (rank,suit); ranges: list of lists of ((r,s),(r,s))"""
+    S = Setup()
+    S.mode = 'ctor'
+    S.n = len(ranges)
+    cons = []
+    f_cpnew = fn(M, 'CardPair::new')
+    f_new = fn(M, 'FlopExhaustiveEvaluatorIterator::new')
+    hrs = []
+    S.range_combos = []
+    for p, combos in enumerate(ranges):
+        slots = []
+        for k, (c1, c2) in enumerate(combos):
+            cp = run_fn(M, f_cpnew, [mk_card(*c1), mk_card(*c2)])[0].result
+            w = z3.FP(f'w{p}_{k}', F32)
+            cons += [z3.fpGEQ(w, z3.FPVal(0.0, F32)), z3.fpLEQ(w, z3.FPVal(1.0, F32))]
+            slots.append([cp, Flt(w), True])
+        hrs.append(Agg('HandRange', [PyObj('map', slots=slots)]))
+        S.range_combos.append(slots)
+    efields = struct_fields(src, 'src/evaluator/flop_exhaustive.rs', 'FlopExhaustiveEvaluator')
+    vals = []
+    for fld, ty in efields:
+        if fld == 'board':
+            vals.append(Arr([some(mk_card(*c)) for c in flop] + [NONE(), NONE()]))
+        elif fld == 'players':
+            vals.append(PyObj('vec', items=hrs))
+        elif fld in ('turn_from', 'river_from', 'turn_to', 'river_to'):
+            vals.append(Int({'turn_from': 0, 'river_from': 1, 'turn_to': 48, 'river_to': 49}[fld], int_width(ty)))
+        else:
+            raise Unsupported(f'evaluator field {fld}: {ty} is not known to the harness')
+    ev = Agg('FlopExhaustiveEvaluator', vals)
+    res = run_fn(M, f_new, [Ref(Cell('ev', ev), [])], cons)
+    if len(res) != 1:
+        raise Unsupported(f'constructor forked into {len(res)} paths on concrete inputs')
+    r = res[0]
+    S.ctor_panic = r.result[1] if is_panic(r) else None
+    S.cons = list(r.pc)
+    S.flop = [mk_card(*c) for c in flop]
+    if S.ctor_panic:
+        return S
+    it = r.result
+    fields = struct_fields(src, 'src/evaluator/flop_exhaustive.rs', 'FlopExhaustiveEvaluatorIterator')
+    S.fields = [f for f, _ in fields]
+    g = lambda k: it.f[S.fields.index(k)]
+    S.deck = list(g('current_deck').items)
+    S.entries = [list(v.items) for v in g('player_entries').items]
+    S.L = [z3.BitVecVal(len(e), 64) for e in S.entries]
+    S.turn, S.river, S.tt, S.rt = z3.BitVec('turn', 8), z3.BitVec('river', 8), z3.BitVec('tt', 8), z3.BitVec('rt', 8)
+    S.cons += [z3.ULT(S.turn, S.river), z3.ULE(S.river, 48), z3.ULT(S.tt, S.rt), z3.Or(z3.ULE(S.rt, 48), z3.And(S.tt == 48, S.rt == 49)),
+               z3.Or(z3.ULT(S.turn, S.tt), z3.And(S.turn == S.tt, z3.ULE(S.river, S.rt)))]
+    for fld, ty in fields:
+        k = S.fields.index(fld)
+        if fld in ('turn_to', 'river_to', 'current_turn_index', 'current_river_index'):
+            w = int_width(ty)
+            base = {'turn_to': S.tt, 'river_to': S.rt, 'current_turn_index': S.turn, 'current_river_index': S.river}[fld]
+            it.f[k] = Int(z3.ZeroExt(w - 8, base) if w > 8 else base, w)
+        elif fld == 'current_player_indexes':
+            w = int_width(ty)
+            S.idx_bits = w
+            S.idx = [z3.BitVec(f'ix{p}', w) for p in range(S.n)]
+            for p in range(S.n):
+                i64 = z3.ZeroExt(64 - w, S.idx[p]) if w < 64 else S.idx[p]
+                S.cons.append(z3.Or(z3.ULT(i64, S.L[p]), z3.And(S.L[p] == 0, S.idx[p] == 0)))
+            it.f[k] = PyObj('vec', items=[Int(i, w) for i in S.idx])
+    S.it = it
+    S.unknown_fields = [f for f in S.fields if f not in ('turn_to', 'river_to', 'player_entries', 'current_deck', 'current_board', 'current_used_cards',
+                                                         'current_turn_index', 'current_river_index', 'current_player_indexes')]
+    return S
 
 
 def field(S, itv, name):
@@ -245,12 +323,16 @@ def position_advanced(S, itv):
     return gt
 
 
-def run_step(M, src, n, empty_ok=False, extra_cons=(), uf_hand=True):
+def run_step(M, src, n, empty_ok=False, extra_cons=(), uf_hand=True, prebuilt=None):
     """execute one frame of next() from the symbolic state; returns (S, outcomes) with outcome dicts:
     kind in {'None','Some','REC','PANIC'}, pc, value (showdown or panic message), state (iterator value at the end / at the cut)"""
     f_next = fn(M, '<FlopExhaustiveEvaluatorIterator as Iterator>::next')
-    S = build(M, n, empty_ok=empty_ok)
-    it = make_iterator(M, src, S)
+    if prebuilt is not None:
+        S = prebuilt
+        it = S.it
+    else:
+        S = build(M, n, empty_ok=empty_ok)
+        it = make_iterator(M, src, S)
     reference(S)
     S.cons += list(extra_cons)
     uf = [0]
@@ -447,6 +529,12 @@ def model_to_history(S, m, maxprod=3_000_000):
         return None
     ranges = []
     prod = 1
+    if getattr(S, 'mode', 'sym') == 'ctor':
+        for p in range(S.n):
+            ranges.append('c:' + ','.join(f"{conc_card_name(sl[0].f[0])}{conc_card_name(sl[0].f[1])}={f32_bits(m, sl[1].v):08x}" for sl in S.range_combos[p]))
+        t = m.eval(S.turn, model_completion=True).as_long()
+        r = m.eval(S.river, model_completion=True).as_long()
+        return dict(flop=flop, scope='', ranges=ranges, position=(t, r), lens=[len(x) for x in S.range_combos])
     for p in range(S.n):
         L = m.eval(S.L[p], model_completion=True).as_long()
         prod *= max(L, 1)
